@@ -108,11 +108,24 @@ def enter_history(tag):
     os.chdir(d)
     for mod in (m.ir, m.rs, m.rmnt, m.sc):
         mod.repo_root = d
+    # solver temp files (PuLP writes <uuid>-pulp.mps/.sol) go into the history's own directory,
+    # so that an aborted or killed job leaves nothing behind in the system temp dir
+    tmp = os.path.join(d, "tmp")
+    os.makedirs(tmp, exist_ok=True)
+    _STATE["saved_tmp"] = (tempfile.tempdir, os.environ.get("TMPDIR"))
+    tempfile.tempdir = tmp
+    os.environ["TMPDIR"] = tmp
     return d
 
 
 def leave_history(d):
     os.chdir(_STATE["root"])
+    if "saved_tmp" in _STATE:
+        tempfile.tempdir, old = _STATE.pop("saved_tmp")
+        if old is None:
+            os.environ.pop("TMPDIR", None)
+        else:
+            os.environ["TMPDIR"] = old
     shutil.rmtree(d, ignore_errors=True)
 
 
